@@ -17,4 +17,4 @@ The property under study (it holds for the code as it is now):
 
 Task: produce THREE independent, different, realistic changes to the martian source (not to tests, not to files guarded by the `verif` build tag, not to the verifhook package) each of which breaks this property while (a) still compiling, (b) passing the ENTIRE existing test suite unchanged, and (c) looking like a plausible refactoring slip, optimisation or well-meant "fix", not sabotage. Each change must need something specific to manifest — a particular interleaving, a fault or close at a particular point, a multi-step sequence of operations, an unusual but legitimate input, or two cooperating sites that each look fine alone — NOT something that any ordinary use would expose at once. Make the three changes differ in which clause of the property they break and in what they need in order to manifest. {extra}
 
-For each change i in 1..3 deliver, under {wt}/out/<i>/: `patch.diff` (output of `git diff` against the worktree's HEAD, applying cleanly with `git apply` to HEAD), `demo_test.go` (a Go test file that can be dropped into a package directory of the repo as zz_demo_test.go — write the package directory, relative to the repo root, alone on the first line of `out/<i>/PKG` (use `.` for the root) — that FAILS with the change applied and PASSES without it; for a concurrency bug it may be a test that fails under `go test -race` or with high probability when repeated — say how to run it), and `README.md` (what the change is, which clause it breaks and why, what exactly is needed for it to manifest, the demo's package directory and run command, the exact commands you ran and their results: suite passing with the change, demo failing with and passing without). Verify all of that yourself. Put a stub `out/go.mod` (`module out`) so `go test ./...` ignores out/. Leave the worktree clean (git checkout -- . ; remove stray test files) when done, keeping only the untracked out/ directory. Final message: a 10-line summary of the three changes.''')
+For each change i in 1..3 deliver, under {wt}/out/<i>/: `patch.diff` (output of `git diff` against the worktree's HEAD, applying cleanly with `git apply` to HEAD), `demo_test.go` (a Go test file that can be dropped into a package directory of the repo as zz_demo_test.go — write the package directory, relative to the repo root, alone on the first line of `out/<i>/PKG` (use `.` for the root) — that FAILS with the change applied and PASSES without it; for a concurrency bug it may be a test that fails under `go test -race` or with high probability when repeated — say how to run it), and `README.md` (what the change is, which clause it breaks and why, what exactly is needed for it to manifest, the demo's package directory and run command, the exact commands you ran and their results: suite passing with the change, demo failing with and passing without). Verify all of that yourself. Put a stub `out/go.mod` (`module out`) so `go test ./...` ignores out/. Never use `git stash` (the stash is shared by all worktrees of this repository and other reviewers work concurrently: use `git diff > file`, `git apply -R file`, `git checkout -- .` instead). Leave the worktree clean (git checkout -- . ; remove stray test files) when done, keeping only the untracked out/ directory. Final message: a 10-line summary of the three changes.''')
